@@ -285,6 +285,13 @@ def make_test(args, workroot, LIM):
             declared = set(prog.globals) | {"D", "E", "TS", "NTD", "NTE"} | {c.name for c in prog.classes}
             for c in prog.classes:
                 declared |= {d.name for d in c.dims} | {f.name for f in c.flows} | {l[0] for l in c.locals}
+            if cls != "valid":
+                # Embedded C is opaque to ptgpp, so it must not depend on the JDF-level names a mutation may rename or delete
+                # (a body using flow `A` after the flow was renamed is a C error no JDF-level check can see): the programs that
+                # get mutated carry neutral bodies and plain expressions instead of inline C.
+                text = re.sub(r"BODY.*?\nEND", "BODY\n{\n    /* nothing */\n}\nEND", text, flags=re.S)
+                text = re.sub(r"%\{ return (.*?); %\}", r"(\1)", text)
+                base_text = text
             if cls == "valid":
                 expect = "A"
             elif cls == "mutated":
@@ -292,6 +299,10 @@ def make_test(args, workroot, LIM):
             else:
                 toks = tokenize(text)
                 cand = [i for i, t in enumerate(toks) if not t.startswith("%{") and not t.startswith("BODY") and len(t) > 0]
+                # the global declarations carry C type strings ([type = "..."], [type = int]) that ptgpp copies verbatim: like the
+                # embedded C they are outside what a JDF-level check can validate, so the noise starts at the first task class
+                first_cls = next((i for i in cand if toks[i].startswith("T0")), 0)
+                cand = [i for i in cand if i >= first_cls] or cand
                 for _ in range(draw(sint(1, 8))):
                     i = cand[draw(sint(0, len(cand) - 1))]
                     b = bytearray(toks[i].encode("latin-1", "replace"))
@@ -310,7 +321,7 @@ def make_test(args, workroot, LIM):
         backend = pick(draw, ["dynamic-hash-table", "index-array"])
         if cls in ("mutated", "noise"):
             # the opaque C blocks must still be the same blocks (a mutation that opens/closes one turns JDF text into C text)
-            orig = ptggen.emit_jdf(prog, "x", {})
+            orig = base_text
             sig = lambda t: [x for x in tokenize(t) if x.startswith("%{") or x.startswith("BODY")]
             if cls == "noise" and sig(orig) != sig(text):
                 STATS.label("excluded_opaque_block_changed")
